@@ -353,7 +353,7 @@ def run(ctx):
     handoff_findings(ctx)
     regenerate_src(ctx)
     pipe_check.regenerate_facts(ctx)
-    res = ctx.coq_check(("Properties.v", "PropertiesSrc.v", "PropertiesPipe.v", "PropertiesPipeFacts.v"))
+    res = ctx.coq_check(("Properties.v", "PropertiesSrc.v", "PropertiesPipe.v", "PropertiesPipeStrand.v", "PropertiesPipeFacts.v"))
     pipe_thms = vlib.theorem_names(open(os.path.join(ctx.coqdir, "PropertiesPipeFacts.v")).read())
     if not all(res.get(n) for n in pipe_thms):
         # coqc stops at the first failing obligation of the file, all of them are then counted as broken: name the first one first
@@ -374,7 +374,7 @@ def run(ctx):
             pctx.merge()
     join_stress(ctx)
     if ctx.thorough():
-        ctx.coq_thorough_chk(["C01.Properties", "C01.PropertiesSrc", "C01.PropertiesPipe", "C01.PropertiesPipeFacts"])
+        ctx.coq_thorough_chk(["C01.Properties", "C01.PropertiesSrc", "C01.PropertiesPipe", "C01.PropertiesPipeStrand", "C01.PropertiesPipeFacts"])
 
 
 def run_rest(ctx, res):
